@@ -122,7 +122,7 @@ func zzC04(k int, nwords int, T int, mode int, delaymax int) {
 			}
 		}
 		for c := 0; c < k; c++ {
-			zzAssert("no-loss", ns <= ng[c])         // the producer never passes an r2owa a consumer has not captured
+			zzAssert("no-loss", ns <= ng[c])        // the producer never passes an r2owa a consumer has not captured
 			zzAssert("no-duplicate", ng[c] <= ns+1) // a consumer never captures one offer twice
 			for i := 0; i < T; i++ {
 				if i < ns && i < ng[c] {
@@ -222,9 +222,59 @@ func zzC04FanIn(nwords int, T int, mode int) {
 	zzReach("end")
 }
 
+// zzC04Port: port selection of the handshaked opcodes. A producer with pn inputs and pm outputs runs
+// "r2owa r0 o<j>; j 0", a consumer with cn inputs runs "i2rw r1 i<e>; j 0", bonded p1i<e> <- p0o<j>; the value
+// (a solver variable) arrives within 8 ticks and is the one sent.
+func zzC04Port(pn int, pm int, j int, cn int, e int) {
+	bm := new(Bondmachine)
+	bm.Rsize = 8
+	prod := zzPMachine(8, 1, pn, pm, 0, 2, "i2rw,j,nop,r2owa")
+	cons := zzPMachine(8, 1, cn, 1, 0, 2, "i2rw,j,nop,r2owa")
+	asm := func(m *procbuilder.Machine, lines ...string) {
+		m.Program.Slocs = nil
+		for len(lines) < 4 {
+			lines = append(lines, "j 0")
+		}
+		for _, l := range lines {
+			w, err := m.Arch.Assembler_process_line([]byte(l))
+			if err != nil || len(w) != m.Max_word() {
+				zzUnsupported("cannot assemble " + l)
+			}
+			m.Program.Slocs = append(m.Program.Slocs, w)
+		}
+	}
+	asm(prod, "r2owa r0 o"+strconv.Itoa(j), "j 0")
+	asm(cons, "i2rw r1 i"+strconv.Itoa(e), "j 0")
+	bm.Domains = append(bm.Domains, prod, cons)
+	bm.Init()
+	bm.Add_processor(0)
+	bm.Add_processor(1)
+	bm.Add_bond([]string{"p1i" + strconv.Itoa(e), "p0o" + strconv.Itoa(j)})
+	vm := new(VM)
+	vm.Bmach = bm
+	vm.Init()
+	vm.Launch_processors(nil)
+	v := zzNondetU8("value")
+	vm.Processors[0].Registers[0] = v
+	vm.Processors[1].Registers[1] = zzNondetU8("old")
+	got := false
+	for t := 0; t < 8; t++ {
+		pre := vm.Processors[1].Pc
+		vm.Step(nil)
+		if pre == 0 && vm.Processors[1].Pc == 1 && !got {
+			got = true
+			zzAssert("the-value-sent-is-the-value-received", vm.Processors[1].Registers[1].(uint8) == v)
+		}
+	}
+	zzAssert("delivered-within-8-ticks", got)
+	zzReach("end")
+}
+
 func zzDispatch(name string, args []string) {
 	atoi := func(s string) int { v, _ := strconv.Atoi(s); return v }
 	switch name {
+	case "zzC04Port":
+		zzC04Port(atoi(args[0]), atoi(args[1]), atoi(args[2]), atoi(args[3]), atoi(args[4]))
 	case "zzC04FanIn":
 		zzC04FanIn(atoi(args[0]), atoi(args[1]), atoi(args[2]))
 	case "zzC04":
